@@ -87,7 +87,7 @@ Section ConcSec.
   Lemma cstep_J st ev : J st -> J (cstep f hdr st ev).
   Proof.
     intros HJ. destruct ev as [tid k]. unfold cstep. destruct tid as [|n].
-    - intros Hb. cbn [c_bad] in Hb. cbn [c_active c_order c_store]. exact (HJ Hb).
+    - destruct k; exact HJ.
     - pose proof (activate_J st (S n) HJ) as HJ1. set (st1 := activate f hdr st (S n)) in *.
       destruct k; try exact HJ1.
       destruct (c_active st1) as [[t [|w ws]]|] eqn:Ea; try apply set_bad_J.
@@ -140,7 +140,7 @@ Section ConcSec.
 
   Lemma cstep_bad st ev : c_bad (cstep f hdr st ev) = false -> c_bad st = false.
   Proof.
-    destruct ev as [tid k]. unfold cstep. destruct tid as [|n]; [cbn; auto|].
+    destruct ev as [tid k]. unfold cstep. destruct tid as [|n]; [destruct k; cbn; auto|].
     destruct k; try apply activate_bad.
     destruct (c_active (activate f hdr st (S n))) as [[t [|w ws]]|]; try discriminate.
     cbn [c_bad]. apply activate_bad.
@@ -150,7 +150,7 @@ Section ConcSec.
   Proof.
     intros HJ HT Hb. pose proof (cstep_bad st ev Hb) as Hb0. specialize (HT Hb0).
     destruct ev as [tid k]. unfold cstep in *. destruct tid as [|n].
-    - cbn [c_tips]. intros x [<-|Hx]; [|apply HT; exact Hx].
+    - destruct k; try exact HT. cbn [c_tips]. intros x [<-|Hx]; [|apply HT; exact Hx].
       destruct (J_store_inv st HJ Hb0) as [tip HI]. exists (c_store st), tip. split; [exact HI| reflexivity].
     - assert (Et: c_tips match k with
                  | OpW => match c_active (activate f hdr st (S n)) with
